@@ -4,6 +4,8 @@ package engines
 
 import (
 	"bytes"
+	"crypto/tls"
+	"crypto/x509"
 	"errors"
 	"fmt"
 	"sort"
@@ -42,6 +44,7 @@ type c15Plan struct {
 	optLen    int
 	optSpare  int
 	acceptors int
+	base      bool // the application configured its own TLS server configuration (plain TLS clients are served by it)
 	clients   []*c15Client
 }
 
@@ -101,6 +104,8 @@ func c15Run(r *kernel.Run, plan *c15Plan, concurrent bool, tag string) ([]c15Out
 			x.dopts = append(x.dopts, nodeenrollment.WithState(c.cstate))
 		}
 		switch c.kind {
+		case "base-tls":
+			// a plain TLS client of the application; c.extras is what it offers (possibly nothing at all)
 		case "auth", "rejected-auth":
 			creds, id := enrollStored(r, srv, x.w, c.recState, "")
 			_ = creds
@@ -143,7 +148,12 @@ func c15Run(r *kernel.Run, plan *c15Plan, concurrent bool, tag string) ([]c15Out
 		}
 		cls = append(cls, x)
 	}
-	w := NewWire(r, srv, nil, options)
+	var baseCfg *tls.Config
+	if plan.base {
+		bc, _ := selfSignedTLS("base.example", x509.ExtKeyUsageServerAuth)
+		baseCfg = &tls.Config{Certificates: []tls.Certificate{bc}, NextProtos: []string{"h2", "http/1.1"}}
+	}
+	w := NewWire(r, srv, baseCfg, options)
 	// per-client network faults: keyed by the dialing goroutine's name, so that the same client meets the same fault
 	// whether it runs alone or among the others
 	faultOf := map[string]*c15Client{}
@@ -191,15 +201,23 @@ func c15Run(r *kernel.Run, plan *c15Plan, concurrent bool, tag string) ([]c15Out
 		r.Sched.Prio = nil
 	}
 	var accepted []*acceptRes
+	start := func(x *cl) {
+		name := fmt.Sprintf("%s-c%d", tag, x.c.idx)
+		if x.c.kind == "base-tls" {
+			x.res = w.rawClient(name, &tls.Config{NextProtos: x.c.extras, InsecureSkipVerify: true, MinVersion: tls.VersionTLS13, ServerName: "base.example"})
+			return
+		}
+		x.res = w.DialHonest(name, x.w, w.Addr, x.dopts...)
+	}
 	if concurrent {
 		for _, x := range cls {
-			x.res = w.DialHonest(fmt.Sprintf("%s-c%d", tag, x.c.idx), x.w, w.Addr, x.dopts...)
+			start(x)
 		}
 		w.Quiesce()
 		accepted = w.Take()
 	} else {
 		for _, x := range cls {
-			x.res = w.DialHonest(fmt.Sprintf("%s-c%d", tag, x.c.idx), x.w, w.Addr, x.dopts...)
+			start(x)
 			w.Quiesce()
 			accepted = append(accepted, w.Take()...)
 		}
@@ -218,6 +236,25 @@ func c15Run(r *kernel.Run, plan *c15Plan, concurrent bool, tag string) ([]c15Out
 				r.Violate("no-panic", "accept-panic/"+a.panicSite, "%s", a.panicMsg)
 			}
 			if a.err != nil || a.conn == nil {
+				continue
+			}
+			if x.c.kind == "base-tls" {
+				// no marker to go by (the client may offer nothing): the connection is identified by its peer address
+				if a.raw.RemoteAddr().String() != fmt.Sprintf("%s-c%d", tag, x.c.idx) {
+					continue
+				}
+				o.ServerConn = true
+				o.ServerProto = a.negotiated
+				o.ClientState = js(a.conn.ClientState())
+				got := a.conn.ClientNextProtos()
+				o.Extras = strings.Join(got, ",")
+				// handled alone on a fresh process this connection reports exactly what its ClientHello offered
+				if !equalStrings(got, x.c.extras) {
+					r.Violate("isolation", "plain-tls-connection-reports-foreign-protocols", "%s: a plain TLS client offering %q is reported with the protocol list %q (len %d)", tag, x.c.extras, truncList(got), len(got))
+				}
+				if st := a.conn.ClientState(); st != nil && len(st.Fields) > 0 {
+					r.Violate("isolation", "plain-tls-connection-reports-foreign-state", "%s: a plain TLS client is reported with client state %s", tag, js(st))
+				}
 				continue
 			}
 			protos := a.conn.ClientNextProtos()
@@ -244,7 +281,7 @@ func c15Run(r *kernel.Run, plan *c15Plan, concurrent bool, tag string) ([]c15Out
 			o.ClientState = js(a.conn.ClientState())
 			o.Extras = strings.Join(tail, ",")
 		}
-		if ni, err := types.LoadNodeInformation(contextBG, srv.Inner, x.keyID, srv.Opts()...); err == nil {
+		if ni, err := types.LoadNodeInformation(contextBG, srv.Inner, x.keyID, srv.Opts()...); x.keyID != "" && err == nil {
 			o.RecordExists = true
 			o.RecordState = js(ni.State)
 		}
@@ -272,7 +309,7 @@ func c15Run(r *kernel.Run, plan *c15Plan, concurrent bool, tag string) ([]c15Out
 func propC15(r *kernel.Run) {
 	tp := r.Tape
 	plan := &c15Plan{backend: Pick2(tp, "inmem", "storeonce"), sw: tp.Draw(2) == 0, loader: tp.Draw(3) == 0,
-		optLen: tp.Draw(13), optSpare: tp.Draw(9), acceptors: tp.Range(2, 4)}
+		optLen: tp.Draw(13), optSpare: tp.Draw(9), acceptors: tp.Range(2, 4), base: tp.Draw(3) == 0}
 	n := tp.Range(2, 6)
 	var kinds []string
 	for i := 0; i < n; i++ {
@@ -280,6 +317,10 @@ func propC15(r *kernel.Run) {
 		c.kind = Pick2(tp, "auth", "auth", "authorized-fetch", "unauthorized-fetch", "token", "token", "token", "rejected-auth")
 		if tp.Draw(2) == 0 {
 			c.extras = []string{fmt.Sprintf("proto-%d", tp.Draw(4))}
+		}
+		if plan.base && tp.Draw(3) == 0 {
+			c.kind = "base-tls"
+			c.extras = [][]string{nil, nil, {"h2"}, {"http/1.1", "h2"}}[tp.Draw(4)]
 		}
 		mk := func(tagk string) *structpb.Struct {
 			s, _ := structpb.NewStruct(map[string]any{"owner": fmt.Sprintf("%s-of-client-%d", tagk, i), "n": float64(tp.Draw(1000))})
